@@ -75,6 +75,10 @@ func genClientLib(prop string, seed uint64, tier string) *Scenario {
 	if body.Primitive == "event" {
 		body.SetAtMs = 200 + r.Intn(1500)
 		body.DefaultSet = r.Intn(2) == 0
+		if body.SetAtMs%2 == 0 {
+			// set late: the less patient waiters have given up by then, the others must still be waiting
+			body.SetAtMs += 2500 + 1000*(body.SetAtMs%3)
+		}
 	}
 	if body.Primitive == "prioritylock" && r.Intn(3) > 0 {
 		// queues that build up: longer holds, distinct priorities, enough patience
@@ -337,7 +341,13 @@ func runClientLib(w *World) {
 					release = func() error { _, err := l.Unlock(); return err }
 				case "event":
 					e := c.Event(key, to, ex, body.DefaultSet)
-					_, err := func() (any, error) { note(g, "inv", wk); return e.Wait(uint32(body.TimeoutS)) }()
+					// each waiter has a patience of its own (derived from values the generator drew anyway):
+					// one waiter giving up must not wake the others
+					patience := uint32(body.TimeoutS)
+					if len(wk.HoldMs) > 0 && body.TimeoutS > 0 {
+						patience = uint32(1 + (wk.HoldMs[0]+g)%(body.TimeoutS+3))
+					}
+					_, err := func() (any, error) { note(g, "inv", wk); return e.Wait(patience) }()
 					if err == nil {
 						note(g, "wait_ret", wk)
 					} else {
